@@ -1,4 +1,5 @@
 pub mod c01;
+pub mod c08;
 pub mod c09;
 pub mod c12;
 pub mod c13;
@@ -18,6 +19,7 @@ pub fn all() -> Vec<Box<dyn Prop>> {
         Box::new(c01::C01),
         Box::new(seqprops::C02),
         Box::new(seqprops::C03),
+        Box::new(c08::C08),
         Box::new(c09::C09),
         Box::new(seqprops::C10),
         Box::new(seqprops::C11),
